@@ -171,6 +171,11 @@ impl Sim {
                 self.pt.restart(id, t, v);
                 n.async_pending.clear();
                 n.to_apply.clear();
+                if self.pt.enabled {
+                    let lg = &n.driver.as_ref().unwrap().node.raft.raft_log;
+                    let (first, ents, cm) = (lg.first_index(), lg.all_entries(), lg.committed);
+                    self.pt.observe(id, first, &ents, cm, &[]);
+                }
             }
             Ok(Err(_)) | Err(_) => {
                 *self.rec.panics.entry("RawNode::new failed".to_string()).or_insert(0) += 1;
@@ -186,6 +191,7 @@ impl Sim {
         let d = self.nodes[i].driver.as_mut()?;
         let role = d.node.raft.state;
         let ppre = (d.node.raft.term, d.node.raft.vote, d.node.raft.state);
+        let msgs_before = d.node.raft.msgs.len();
         let o = d.exec(&c);
         let ppost = (d.node.raft.term, d.node.raft.vote, d.node.raft.state);
         let gfrom = match &c {
@@ -204,6 +210,22 @@ impl Sim {
                 if rv.hs.is_some() {
                     self.pt.ready_hs(nid);
                 }
+            }
+            if self.pt.enabled {
+                let d = self.nodes[i].driver.as_ref().unwrap();
+                let lg = &d.node.raft.raft_log;
+                let acks: Vec<u64> = if d.node.raft.msgs.len() >= msgs_before {
+                    d.node.raft.msgs[msgs_before..]
+                        .iter()
+                        .filter(|m| m.get_msg_type() == MessageType::MsgAppendResponse && !m.reject && m.index >= 1)
+                        .map(|m| m.index)
+                        .collect()
+                } else {
+                    vec![]
+                };
+                let first = lg.first_index();
+                let ents = lg.all_entries();
+                self.pt.observe(nid, first, &ents, lg.committed, &acks);
             }
         } else {
             self.pt.crash(nid);
@@ -309,6 +331,17 @@ impl Sim {
             hs.vote = v;
             hs.commit = c;
             self.pt.fsync(n.id, t, v);
+        }
+        drop(st);
+        if self.pt.enabled {
+            let first = n.store.first_index().unwrap();
+            let last = n.store.last_index().unwrap();
+            let ents = if last + 1 > first {
+                n.store.entries(first, last + 1, None, raft::GetEntriesContext::empty(false)).unwrap()
+            } else {
+                vec![]
+            };
+            self.pt.durable(n.id, first, &ents);
         }
     }
 
